@@ -156,6 +156,24 @@ def worker(args):
             if okk:
                 hutil.discharge(chk, ex, label + ':errno-at-entry==saved-value', seen['entry'] == S, {'saved_before': S})
                 hutil.discharge(chk, ex, label + ':saved-value==errno-at-return', saved() == EC, {'errno_set_by_C': EC})
+        elif what in ('extern-python-unattached', 'extern-python-other-interpreter'):
+            # extern "Python" function without code attached (in this interpreter): nothing of Python runs, zeros are returned --
+            # and the C caller's errno is what it was
+            EC = z3.BitVec('errno_before', 32)
+            ran = []
+            ex.stubs['general_invoke_callback'] = lambda e, *a: ran.append(1)
+            ex.stubs['fprintf'] = lambda e, *a: 0          # the diagnostic on stderr (its errno effects are not the subject)
+            ep = ex.mem.alloc(64, 'externpy', 'heap', fill=0)
+            st = mod.struct_layout(('named', 'struct._cffi_externpy_s'))[0]
+            if what == 'extern-python-other-interpreter':
+                ex.mem.store(ep.base + st[2], py.new_opaque('another interp key'), 8)
+                ex.stubs['_current_interp_key'] = lambda e: py.new_opaque('this interp key')
+                ex.stubs['_update_cache_to_call_python'] = lambda e, x: 3
+            argbuf = ex.mem.alloc(16, 'args', 'heap', fill=0)
+            ex.call('cffi_call_python', [ep.base, argbuf.base])
+            hutil.witness(chk, ex, label)
+            hutil.discharge(chk, ex, label + ':no-python-code-runs', not ran, {})
+            hutil.discharge(chk, ex, label + ':C-errno-unchanged-by-the-failed-call', errno() == EC, {'errno_before': EC})
         elif what in ('callback-bracket', 'extern-python-bracket'):
             EC = z3.BitVec('errno_before', 32)          # C's errno when it invokes the callback
             PV = z3.BitVec('errno_assigned_in_python', 32)
@@ -218,7 +236,8 @@ def worker(args):
 def run(chk):
     P = (chk.prop, chk.tier)
     cases = [P + (w,) for w in ('set-then-call', 'call-then-get', 'set-out-of-range', 'libffi-call-bracket', 'callback-bracket',
-                                'extern-python-bracket', 'global-variable-fetch')]
+                                'extern-python-bracket', 'extern-python-unattached', 'extern-python-other-interpreter',
+                                'global-variable-fetch')]
     chk.bounds = {'errno values': 'every 32-bit value (0 included); ffi.errno assignments of any Python int',
                   'environment': 'errno havocked at every GIL release/acquire and during Python-level activity',
                   'call paths': ['libffi cdata_call', 'ffi.callback invoke_callback', 'extern "Python" cffi_call_python', 'global variable fetch']}
